@@ -428,7 +428,7 @@ def _site_of(tb_list) -> tuple[str, str, list[str]]:
     for i, (fn, name) in enumerate(frames):
         if name in ("_multi_run_fixes", "format_code") and fn == "main.py":
             for fn2, name2 in frames[i + 1:]:
-                if name2 not in ("wrapper", "func_chain", "_schedule_rewrites", "_multi_run_fixes", "fill_transaction", "<genexpr>"):
+                if name2 not in ("wrapper", "func_chain", "_schedule_rewrites", "_multi_run_fixes", "_format_code", "fill_transaction", "<genexpr>"):
                     stage = f"{fn2[:-3]}.{name2}"
                     break
     inner = f"{pyre[-1][0][:-3]}.{pyre[-1][1]}" if pyre else ""
